@@ -3,6 +3,10 @@ import Rpki.Model.CertDer
 import Rpki.Model.CmsDer
 import Rpki.Model.CrlDer
 import Rpki.Model.SigMsgDer
+import Rpki.Model.CsrDer
+import Rpki.Model.Tal
+import Rpki.Model.RtaDer
+import Rpki.Gen.BerModel
 /-! the canonical one-line rendering of a decoded certificate shared by the `certd` ops (C04, C01, C05);
 the harness prints the same line from the library's accessors (`harness/src/certd.rs`) -/
 namespace Driver.CertShow
@@ -74,5 +78,89 @@ def smsgLine (b : List Nat) : String :=
   match Rpki.SigMsgDer.decodeSigMsg b with
   | none => "err"
   | some m => s!"ok {hexN m.content}"
+
+/-- `csrd <csr|bcsr> <hex>` -/
+def csrLine (ty : String) (b : List Nat) : String :=
+  let router := ty = "bcsr"
+  match Rpki.CsrDer.decodeCsr router b with
+  | none => "err"
+  | some d =>
+    let eku := match d.eku with | none => "N" | some true => "1" | some false => "0"
+    let head := s!"ok {hexN d.subject} {if d.keyAlg == .rsa then "r" else "e"} {hexN (Rpki.Sha.sha1N d.keyBits)}"
+    if router then s!"{head} {eku}"
+    else
+      let bc := match d.basicCa with | some true => "T" | some false => "F" | none => "N"
+      let ku := match d.keyUsage with | some .ca => "c" | some .ee => "e" | none => "N"
+      let sia := d.sia.getD {}
+      s!"{head} {bc} {ku} {eku} {optHex sia.caRepository} {optHex sia.rpkiManifest} {optHex sia.rpkiNotify}"
+
+def showTalUris (l : List Rpki.Tal.TalUri) : String :=
+  if l.isEmpty then "-" else ",".intercalate (l.map fun u => match u with | .rsync b => "r:" ++ hexN b | .https b => "h:" ++ hexN b)
+
+/-- `tald <hex>` -/
+def talLine (b : List Nat) : String :=
+  match Rpki.Tal.decodeTal b with
+  | none => "err"
+  | some (uris, alg, _, bits) =>
+    s!"ok {showTalUris uris} {if alg == .rsa then "r" else "e"} {hexN (Rpki.Sha.sha1N bits)} {showTalUris (Rpki.Tal.preferHttps uris)}"
+
+/-- `keyd <hex>` -/
+def keyLine (b : List Nat) : String :=
+  match Rpki.Tal.decodeKey b with
+  | none => "err"
+  | some (alg, _, bits) => s!"ok {if alg == .rsa then "r" else "e"} {hexN (Rpki.Sha.sha1N bits)} {bits.length}"
+
+/-- `rtad <hex>` -/
+def rtaLine (b : List Nat) : String :=
+  match Rpki.RtaDer.decodeRta b with
+  | none => "err"
+  | some r =>
+    let keys := if r.att.keys.isEmpty then "-" else ",".intercalate (r.att.keys.map hexN)
+    s!"ok {keys} {showClaim (shiftV4 (.blocks r.att.v4))} {showBlocks r.att.v6} {showBlocks r.att.asn} {hexN r.att.digest} {r.certs.length} {r.crls.length} {r.signers.length}"
+
+/-! the same lines from the mode-parametrized model (`Gen/BerModel.lean`) -/
+
+def inspectBitsM (ber : Bool) (d : Decoded) : String :=
+  let one (strict : Bool) : String :=
+    let f := toFactsM ber d false strict true
+    let fr := toFactsM ber d true strict true
+    b01 (Rpki.Cert.inspectTa f) ++ b01 (Rpki.Cert.inspectCa f) ++ b01 (Rpki.Cert.inspectEe f) ++
+    b01 (Rpki.Cert.inspectDetachedEe f) ++ b01 (Rpki.Cert.inspectRouter fr)
+  one true ++ one false
+
+def showDecodedM (ber : Bool) (d : Decoded) : String :=
+  let bc := match d.basicCa with | some true => "T" | some false => "F" | none => "N"
+  let eku := match d.eku with | none => "N" | some true => "1" | some false => "0"
+  " ".intercalate [
+    "ok", hexN d.serial, hexN d.issuer, hexN d.subject, toString d.validity.nb, toString d.validity.na,
+    (if d.keyAlg == .rsa then "r" else "e"), hexN (keyIdentifier d), bc, hexN d.ski, optHex d.aki,
+    (if d.keyUsage == .ca then "c" else "e"), eku, optHex d.crlUri, optHex d.caIssuer,
+    optHex d.sia.caRepository, optHex d.sia.rpkiManifest, optHex d.sia.signedObject, optHex d.sia.rpkiNotify,
+    b01 d.trim, showClaim (shiftV4 d.v4), showClaim d.v6, showClaim d.asn, inspectBitsM ber d ]
+
+/-- `cmsdr <ty> <hex>` (`ber = true`); at `ber = false` the line of `cmsd` -/
+def cmsLineM (ber : Bool) (ty : String) (b : List Nat) : String :=
+  let typed := if (Rpki.CmsDer.decodeTypedM ber ty b).isSome then "ok" else "err"
+  let so := match Rpki.CmsDer.decodeSigObjM ber b with
+    | none => "err"
+    | some o => s!"ok {hexN o.contentType} {hexN o.content} {civilToEpoch o.signingTime} | {showDecodedM ber o.cert}"
+  s!"{typed} {so}"
+
+/-- `smsgdr <hex>` -/
+def smsgLineM (ber : Bool) (b : List Nat) : String :=
+  match Rpki.SigMsgDer.decodeSigMsgM ber b with
+  | none => "err"
+  | some m => s!"ok {hexN m.content}"
+
+def certLineM (ber : Bool) (b : List Nat) : String :=
+  match decodeCertM ber b with
+  | some d => showDecodedM ber d
+  | none => "err"
+
+def idcLineM (ber : Bool) (b : List Nat) : String :=
+  match Rpki.SigMsgDer.decodeIdCertM ber b with
+  | none => "err"
+  | some d =>
+    s!"ok {hexN d.serial} {hexN d.subject} {d.validity.nb} {d.validity.na} {if d.keyAlg == .rsa then "r" else "e"} {hexN (Rpki.Sha.sha1N d.keyBits)} {hexN d.ski} {optHex d.aki}"
 
 end Driver.CertShow
